@@ -469,6 +469,48 @@ def short_salt_inputs(ctx):
                                   f"named by the caller's header", {"short_salt_inputs": True, "alg": alg, "form": form, "p2s": p2s})
 
 
+def requested_size_with_parameters(ctx):
+    """the size / curve asked for is what is generated, whatever else the parameters say ("alg", "use", "kid" of a key meant for another algorithm)"""
+    j = J.load()
+    from ..keystrata import numbers_of_native
+    algs = ["HS256", "HS384", "HS512", "A128KW", "A192KW", "A256KW", "A128GCMKW", "A256GCMKW", "A128GCM", "A192CBC-HS384", "A256CBC-HS512", "dir", "PBES2-HS256+A128KW", "ES256", "none"]
+    for size in (128, 192, 256, 384, 512):
+        for alg in algs:
+            params = {"alg": alg, "use": "enc" if "KW" in alg or "GCM" in alg or "CBC" in alg or alg == "dir" else "sig", "kid": f"k-{size}-{alg}"}
+            gens = [("OctKey.generate_key", lambda: j.OctKey.generate_key(size, dict(params))), ("OctKey.generate_key[keywords]", lambda: j.OctKey.generate_key(key_size=size, parameters=dict(params))),
+                    ("JWKRegistry.generate_key", lambda: j.JWKRegistry.generate_key("oct", size, dict(params))),
+                    ("KeySet.generate_key_set", lambda: j.KeySet.generate_key_set("oct", size, {"alg": alg}, count=2).keys[1])]
+            for gname, f in gens:
+                ctx.ev()
+                o = call(f)
+                ctx.count("requested_name_cases")
+                ctx.count("requested_size_with_parameters")
+                ctx.nontrivial(("size+params", size, alg, gname))
+                if not o.ok:
+                    ctx.open("generate-with-alg-parameter-refused")
+                    continue
+                got = len(numbers_of_native(o.value.raw_value)["k"]) * 8
+                ctx.count("values_monitored")
+                if got != size:
+                    ctx.violation("wrong-size:generated-oct:with-parameters", f"{gname}({size}, parameters {params}) generated a key of {got} bits", {"requested_size_with_parameters": True, "size": size, "alg": alg, "via": gname})
+    for crv, alg in (("P-256", "ES384"), ("P-384", "ES256"), ("P-521", "ES256"), ("secp256k1", "ES256"), ("P-256", "ECDH-ES+A256KW")):
+        for gname, f in (("ECKey.generate_key", lambda: j.ECKey.generate_key(crv, {"alg": alg})), ("JWKRegistry.generate_key", lambda: j.JWKRegistry.generate_key("EC", crv, {"alg": alg}))):
+            ctx.ev()
+            o = call(f)
+            ctx.count("requested_name_cases")
+            if o.ok:
+                want = {"P-256": "secp256r1", "P-384": "secp384r1", "P-521": "secp521r1", "secp256k1": "secp256k1"}[crv]
+                n = numbers_of_native(o.value.raw_value)
+                if n.get("crv") != want:
+                    ctx.violation("wrong-curve:generated-key:with-parameters", f"{gname}({crv!r}, alg {alg}) generated a key on {n.get('crv')}", {"requested_size_with_parameters": True, "crv": crv, "alg": alg})
+    for crv, alg in (("Ed25519", "ECDH-ES"), ("X25519", "EdDSA"), ("Ed448", "EdDSA"), ("X448", "ECDH-ES+A128KW")):
+        ctx.ev()
+        o = call(j.OKPKey.generate_key, crv, {"alg": alg})
+        ctx.count("requested_name_cases")
+        if o.ok and numbers_of_native(o.value.raw_value)["t"].lower() != crv.lower():
+            ctx.violation("wrong-curve:generated-key:with-parameters", f"OKPKey.generate_key({crv!r}, alg {alg}) generated a {numbers_of_native(o.value.raw_value)['t']} key", {"requested_size_with_parameters": True, "crv": crv})
+
+
 def forked_processes(ctx, mon):
     """processes created by fork() after the parent has already encrypted: their IV / CEK / epk / salt values must differ too"""
     import os
@@ -584,6 +626,8 @@ def run_shard(ctx):
             requested_names(ctx)
         if ctx.shard == 5:
             short_salt_inputs(ctx)
+        if ctx.shard == 6:
+            requested_size_with_parameters(ctx)
         cs = configs(ctx.tier)
         for idx, c in enumerate(cs):
             if idx % ctx.nshards != ctx.shard:
@@ -627,6 +671,9 @@ REQUIRE = [("forked_children", 3, "forked child processes compared"), ("encrypti
 
 
 def replay(ctx, case):
+    if case.get("requested_size_with_parameters"):
+        J.load()
+        return requested_size_with_parameters(ctx)
     if case.get("short_salt_inputs"):
         J.load()
         return short_salt_inputs(ctx)
